@@ -150,62 +150,10 @@ def run(ctx):
     ctx.attempt(owned_union_rule, ctx)
     simu = repo.cls(SIMU)
 
-    r1 = ctx.rule("R20.1", "owned-row restriction: Calc_Energy / Calc_Reaction index the vector and the operator rows by the owned dofs and reduce; Get_dofs selects the owned nodes under MPI", min_instances=4)
-    f = simu.methods["Calc_Energy"]
-    r1.instance(fn=f.qualname)
-    ps = f.params()  # self, A, x, dofs
-    A, x, d = ps[1], ps[2], ps[3]
-    rets = [n for n in ast.walk(f.node) if isinstance(n, ast.Return) and n.value is not None]
-    ok = False
-    for rt in rets:
-        v = rt.value
-        if isinstance(v, ast.Call) and (dotted(v.func) or "") == "Reduce_sum":
-            subs = [norm_text(s) for s in ast.walk(v) if isinstance(s, ast.Subscript)]
-            if f"{x}[{d}]" in subs and f"{A}[{d}]" in subs:
-                ok = True
-    default_owned = any(isinstance(n, ast.If) and f"{d} is None" in norm_text(n.test) and "Get_dofs()" in norm_text(n) for n in ast.walk(f.node))
-    if ok and default_owned:
-        r1.ok(f"Calc_Energy: Reduce_sum(0.5 * {x}[{d}] @ ({A}[{d}] @ {x})), {d} defaults to the owned dofs")
-    else:
-        r1.fail(f.qualname, "owned-rows", f.file, f.lineno, "Calc_Energy", "the quadratic form is not restricted to the owned rows on both the vector and the operator, or is not reduced over ranks: the ghost layer would be counted once per rank")
-    f = simu.methods["Calc_Reaction"]
-    r1.instance(fn=f.qualname)
-    mats = set()
-    for n in ast.walk(f.node):
-        if isinstance(n, ast.Assign) and isinstance(n.targets[0], ast.Tuple) and isinstance(n.value, ast.Call) and (dotted(n.value.func) or "").endswith("Get_K_C_M_F"):
-            mats = {e.id for e in n.targets[0].elts if isinstance(e, ast.Name) and e.id != "_"}
-    prods = []
-    for n in ast.walk(f.node):
-        if isinstance(n, ast.BinOp) and isinstance(n.op, ast.MatMult):
-            base = n.left.value if isinstance(n.left, ast.Subscript) else n.left
-            if isinstance(base, ast.Name) and base.id in mats:
-                prods.append(n)
-    from ..flow import Locals
-
-    Lr = Locals(f.node)
-    dparam = f.params()[1]
-    idxs = {norm_text(p.left.slice) if isinstance(p.left, ast.Subscript) else "<all rows>" for p in prods}
-    dvals = [Lr.text(v) for v in Lr.all_defs(dparam)]
-    filt = len(dvals) >= 2 and all(("self.Get_dofs(" in t) for t in dvals) and any("np.isin(" in t for t in dvals)
-    red = any("Reduce_sum" in norm_text(n.value) for n in ast.walk(f.node) if isinstance(n, ast.Return) and n.value is not None)
-    if len(prods) >= 3 and idxs == {dparam} and filt and red:
-        r1.ok(f"Calc_Reaction: {len(prods)} products X[{dparam}] @ state with {dparam} filtered by the owned dofs; reduced under MPI")
-    else:
-        r1.fail(f.qualname, "owned-rows", f.file, f.lineno, "Calc_Reaction", f"operator rows are indexed by {sorted(idxs)} (must all be the owned-filtered `{dparam}`), filtered={filt}, reduced={red}")
-    f = simu.methods["Get_dofs"]
-    r1.instance(fn=f.qualname)
-    okd = any(isinstance(n, ast.If) and "MPI_SIZE > 1" in norm_text(n.test) and "_Get_mpi_owned_nodes" in norm_text(ast.Module(body=n.body, type_ignores=[])) for n in ast.walk(f.node))
-    if okd:
-        r1.ok("Get_dofs: owned nodes under MPI, all nodes otherwise")
-    else:
-        r1.fail(f.qualname, "owned-nodes", f.file, f.lineno, "Get_dofs", "does not select the rank's owned nodes under MPI")
-    fo = repo.cls(MESH).methods["_Get_mpi_owned_nodes"]
-    r1.instance(fn=fo.qualname)
-    if all("_Get_partitioned_data()[3]" in norm_text(n.value) for n in ast.walk(fo.node) if isinstance(n, ast.Return) and n.value is not None):
-        r1.ok("_Get_mpi_owned_nodes: slot 3 (owned nodes) of the partition data of the main-dimension groups")
-    else:
-        r1.fail(fo.qualname, "slot", fo.file, fo.lineno, "_Get_mpi_owned_nodes", "owned nodes are not read from slot 3 of the partition data")
-
+    # (R20.1 matched the statements of Calc_Energy / Calc_Reaction / Get_dofs / _Get_mpi_owned_nodes as text - a return of
+    # Reduce_sum(..x[d]..A[d]..), `MPI_SIZE > 1`, `_Get_partitioned_data()[3]` - and would fire on an equivalent rewrite with
+    # local names or tuple unpacking; retired: R20.13 interprets the three simulation functions, R20.9 the owned-node union
+    # on real group objects written by _Set_partitioned_data.)
     r2 = ctx.rule("R20.2", "sorted precondition: the haystack of every np.searchsorted has sorted provenance", min_instances=5)
     unknown = []
     for f in repo.all_functions():
@@ -241,35 +189,11 @@ def run(ctx):
     ctx.attempt(merge_dedup_rule, ctx)
     ctx.attempt(merge_single_rule, ctx)
     ctx.attempt(partition_interpreted_rule, ctx)
+    ctx.attempt(owned_rows_rule, ctx)
     table_scope_rule(ctx)
-    r4 = ctx.rule("R20.4", "merge bookkeeping: the node mapping of mesh i is old_to_new[off_i : off_i + size_i] with the offsets used to shift its connectivity", min_instances=1)
-    fm = repo.cls(MESH).methods["Merge"]
-    r4.instance(fn=fm.qualname)
-    Lm = Locals(fm.node)
-    offs_name = None
-    shift = False
-    for n in ast.walk(fm.node):
-        if isinstance(n, ast.For) and isinstance(n.iter, ast.Call) and dotted(n.iter.func) == "zip" and len(n.iter.args) == 2 and isinstance(n.target, ast.Tuple) and len(n.target.elts) == 2:
-            offv = n.target.elts[1]
-            body = [x for x in ast.walk(n) if isinstance(x, ast.Subscript) and isinstance(x.slice, ast.BinOp) and isinstance(x.slice.op, ast.Add) and ".connect" in norm_text(x.slice.left) and isinstance(x.slice.right, ast.Name) and isinstance(offv, ast.Name) and x.slice.right.id == offv.id]
-            if body and isinstance(n.iter.args[1], ast.Name):
-                shift = True
-                offs_name = n.iter.args[1].id
-                map_name = norm_text(body[0].value)
-    mapping = False
-    for n in ast.walk(fm.node):
-        if isinstance(n, ast.ListComp) and isinstance(n.elt, ast.Subscript) and isinstance(n.elt.slice, ast.Slice) and len(n.generators) == 1:
-            g = n.generators[0]
-            if isinstance(g.iter, ast.Call) and dotted(g.iter.func) == "zip" and len(g.iter.args) == 2 and isinstance(g.iter.args[0], ast.Name) and g.iter.args[0].id == offs_name and isinstance(g.target, ast.Tuple) and len(g.target.elts) == 2:
-                a, b = (norm_text(e) for e in g.target.elts)
-                lo, up = norm_text(n.elt.slice.lower), norm_text(n.elt.slice.upper)
-                if lo == a and up.replace(" ", "") in (f"{a}+{b}", f"{b}+{a}") and shift and norm_text(n.elt.value) == map_name:
-                    mapping = True
-    offs = offs_name is not None and "np.cumsum(" in Lm.text(ast.Name(id=offs_name, ctx=ast.Load())) and "[:-1]" in Lm.text(ast.Name(id=offs_name, ctx=ast.Load()))
-    if shift and mapping and offs:
-        r4.ok("Merge: connect + off and mapping[off : off + size] use the same exclusive prefix sums of the node counts")
-    else:
-        r4.fail(fm.qualname, "offsets", fm.file, fm.lineno, "Mesh.Merge", f"offset bookkeeping changed (shift={shift}, mapping={mapping}, offsets={offs})")
+    # (R20.4 matched the statement shapes of the offset bookkeeping of Mesh.Merge - np.cumsum(..)[:-1], a zip comprehension -
+    # and fired on `np.cumsum(sizes) - sizes` and on a loop; retired: R20.10 decides mapping, coordinates and the merged
+    # connectivity by interpreting Merge on meshes of 3, 4 and 3 nodes.)
 
 
 def ownership_rule(ctx, fg):
@@ -415,15 +339,24 @@ def owned_union_rule(ctx):
     from ..xarray import XArray
 
     repo = ctx.repo
-    r = ctx.rule("R20.9", "owned nodes of a multi-group mesh: the union over the groups without repetition (a node owned through two groups is listed once), sorted", min_instances=2)
+    r = ctx.rule("R20.9", "owned nodes of a multi-group mesh: the union over the groups without repetition (a node owned through two groups is listed once), sorted; one group: its owned nodes, not its ghost nodes (group objects written by _Set_partitioned_data)", min_instances=3)
     mcls = repo.cls("EasyFEA.FEM._mesh.Mesh")
     f = mcls.methods["_Get_mpi_owned_nodes"]
-    for lists in ([[0, 3, 5, 8], [3, 4, 8, 9]], [[2, 7], [1, 2], [7, 11]]):
+    for lists in ([[0, 3, 5, 8], [3, 4, 8, 9]], [[2, 7], [1, 2], [7, 11]], [[0, 3, 5]]):
         r.instance(fn=f.qualname)
-        groups = [SimpleNamespace(_Get_partitioned_data=lambda l=l: (0, XArray((1,), [0]), XArray((0,), []), XArray((len(l),), list(l)), XArray((0,), []))) for l in lists]
-        obj = XObj(mcls, dict(dim=2, Get_list_groupElem=lambda d=None: list(groups)))
+        # real group objects: the owned nodes are handed to the writer `_Set_partitioned_data` (in hash order, as Mesher does)
+        # and read back through `_Get_partitioned_data` by the function under test - whatever slot the pair agrees on
+        gcls = repo.cls(GE)
+        fset = gcls.methods["_Set_partitioned_data"]
         I = Interp(repo)
+        groups = []
         try:
+            for l in lists:
+                allnodes = sorted(set(l) | {20, 21})
+                g = XObj(gcls, {gcls.mangle("__connect"): XArray((2, 3), [0] * 6, "i"), "nodes": XArray((len(allnodes),), allnodes, "i")})
+                I.call_function(fset, [XArray((1,), [0], "i"), XArray((len(l),), list(reversed(l)), "i"), 0, XArray((1,), [1], "i")], self_obj=g)
+                groups.append(g)
+            obj = XObj(mcls, dict(dim=2, Get_list_groupElem=lambda d=None: list(groups)))
             out = XArray.from_nested(I.call_function(f, [], self_obj=obj))
         except XRaise as e:
             r.fail(f.qualname, "owned-union", f.file, f.lineno, "Mesh._Get_mpi_owned_nodes", f"raises {e}")
@@ -455,7 +388,9 @@ def merge_dedup_rule(ctx):
     r = ctx.rule("R20.10", "Mesh.Merge: nodes coincide <=> same merged number (a point shared by three meshes included; a sheet and its copy one unit above it are not glued), merged coordinates follow the mapping, one merged node per distinct point", min_instances=2)
     P = lambda x, y, z=0: (Q(x), Q(y), Q(z))
     scenarios = {
-        "three triangles sharing the corner (0, 0) (a point present in all three meshes) and pairwise an edge point": [[P(0, 0), P(1, 0), P(0, 1)], [P(0, 0), P(0, 1), P(-1, 0)], [P(0, 0), P(-1, 0), P(0, -1)]],
+        # (the second mesh carries a fourth node not used by its triangle: the meshes have 3, 4, 3 nodes, so a slip in the
+        #  offsets - sizes[1:] for sizes[:-1], an inclusive prefix sum - moves the third mesh's block)
+        "three triangles sharing the corner (0, 0) (a point present in all three meshes) and pairwise an edge point": [[P(0, 0), P(1, 0), P(0, 1)], [P(0, 0), P(0, 1), P(-1, 0), P(5, 5)], [P(0, 0), P(-1, 0), P(0, -1)]],
         # the first mesh lies in the plane z = 0 (its embedding dimension is 2); the second is the same triangle one unit above
         "a triangle in the plane z = 0, the same triangle at z = 1, and a neighbour of the first in the plane": [[P(0, 0), P(1, 0), P(0, 1)], [P(0, 0, 1), P(1, 0, 1), P(0, 1, 1)], [P(0, 0), P(0, 1), P(-1, 0)]],
     }
@@ -530,7 +465,7 @@ def merge_dedup_rule(ctx):
         mapping = [[int(x) for x in XArray.from_nested(m).data] for m in out[1]]
         conn, newc = created.get("TRI3", (None, None))
         bad = None
-        flat = [(i, j) for i in range(3) for j in range(3)]
+        flat = [(i, j) for i in range(3) for j in range(len(meshes_pts[i]))]
         for a in range(len(flat)):
             for b in range(a + 1, len(flat)):
                 (i, j), (k, l) = flat[a], flat[b]
@@ -544,9 +479,17 @@ def merge_dedup_rule(ctx):
                 bad = f"the merged mesh has {newc.shape[0]} nodes for {distinct} distinct points"
             else:
                 for i in range(3):
-                    for j in range(3):
+                    for j in range(len(meshes_pts[i])):
                         if bad is None and tuple(newc[mapping[i][j], k] for k in range(3)) != meshes_pts[i][j]:
                             bad = f"merged coordinates of mapping[{i}][{j}] are not those of the node"
+        if bad is None and any(len(mapping[i]) != len(meshes_pts[i]) for i in range(3)):
+            bad = f"mapping lengths {[len(m) for m in mapping]} for meshes of {[len(m) for m in meshes_pts]} nodes"
+        if bad is None and conn is not None:
+            # the merged connectivity: the triangle of mesh i is (mapping[i][0], mapping[i][1], mapping[i][2]), in mesh order
+            rows = [[int(conn[e, k]) for k in range(3)] for e in range(conn.shape[0])]
+            want_rows = [[mapping[i][k] for k in range(3)] for i in range(3)]
+            if rows != want_rows:
+                bad = f"merged connectivity {rows}, expected each mesh's element renumbered by its own mapping {want_rows} (connectivity shifted by another offset than the mapping)"
         if bad:
             r.fail(f.qualname, "merge-dedup" if label.startswith("three") else f"merge-dedup:{label[:24]}", f.file, f.lineno, "Mesh.Merge", f"{label}: {bad}: the merged numbering is not 'one node per distinct point' (pairs not closed transitively, or coincidence decided on fewer than the three coordinates); merging the parts of a partition does not give the global mesh back")
         else:
@@ -699,3 +642,121 @@ def partition_interpreted_rule(ctx, rid="R20.12"):
     run_case("SEG3 boundary group processed after the surface group (ownership table already filled)", ("Line 3", 1, 2, 3, Opaque("localCoords"), 2), seg3, [0, 2, 0], t if all(t.values()) else {0: {0, 1, 2, 4, 5, 7, 8, 9, 10, 11, 12}, 1: {6}, 2: {3, 13, 14}})
     tri3 = [[0, 1, 2], [1, 3, 2], [3, 4, 2], [4, 5, 2]]
     run_case("TRI3 fan over two ranks", ("Triangle 3", 2, 1, 3, Opaque("localCoords"), 3), tri3, [0, 0, 1, 1], None)
+
+
+def owned_rows_rule(ctx, rid="R20.13"):
+    """'owned-row energies and reactions summed over parts equal the global ones': `Calc_Energy` and `Calc_Reaction` are
+    interpreted on a symbolic 4-dof system.  Energy: the value handed to the reduction over ranks is 1/2 sum_{i in owned}
+    x_i (A x)_i - rows restricted, columns complete - for explicit dofs and for the default (the owned dofs).  Reaction:
+    for the static, first-order and second-order schemes, on one process and under MPI, with default and with requested
+    dofs (filtered by ownership): entry i is (K u + C v + M a)_i on the requested owned rows, nothing elsewhere, reduced
+    over ranks under MPI."""
+    from types import SimpleNamespace
+
+    from ..alg import Poly, Q, is_zero
+    from ..xeval import Interp, XObj, Opaque, XRaise, EnumVal, FuncInfo
+    from ..xarray import XArray
+
+    repo = ctx.repo
+    simu = repo.cls(SIMU)
+    r = ctx.rule(rid, "owned rows interpreted: Calc_Energy reduces 1/2 sum_{i owned} x_i (A x)_i; Calc_Reaction returns (K u [+ C v [+ M a]])_i on the requested owned rows for every scheme kind, reduced under MPI", min_instances=10)
+    n = 4
+    sym = lambda nm: XArray((n, n), [Poly.var(f"{nm}{i}{j}") for i in range(n) for j in range(n)])
+    vec = lambda nm: XArray((n,), [Poly.var(f"{nm}{i}") for i in range(n)])
+
+    def hook(fn, args, kwargs):
+        fi = fn if isinstance(fn, FuncInfo) else getattr(fn, "finfo", None)
+        if fi is not None and fi.name == "Reduce_sum":
+            return ("reduced", args[0])
+        return NotImplemented
+
+    # ---- energy
+    fE = simu.methods["Calc_Energy"]
+    A, x = sym("a"), vec("x")
+    for label, dofs, owned in (("explicit dofs [1, 3]", XArray((2,), [1, 3], "i"), [0, 2]), ("default dofs (owned = [0, 2])", None, [0, 2])):
+        r.instance(fn=fE.qualname)
+        I = Interp(repo)
+        I.call_hook = hook
+        obj = XObj(simu, {"Get_dofs": lambda pt=None: XArray((len(owned),), list(owned), "i")})
+        try:
+            out = I.call_function(fE, [A, x, dofs], self_obj=obj)
+        except XRaise as e:
+            r.fail(fE.qualname, f"energy:{label}", fE.file, fE.lineno, "Calc_Energy", f"{label}: raises {e}")
+            continue
+        rows = [1, 3] if dofs is not None else owned
+        want = sum((x[i] * sum((A[i, j] * x[j] for j in range(n)), Poly()) for i in rows), Poly()) * Q(1, 2)
+        if isinstance(out, tuple) and out[0] == "reduced" and is_zero(Poly.of(out[1]) - want):
+            r.ok(f"Calc_Energy, {label}: reduced 1/2 x[d].(A[d] x)")
+        else:
+            r.fail(fE.qualname, f"energy:{label}", fE.file, fE.lineno, "Calc_Energy", f"{label}: the energy is {'reduced over ranks' if isinstance(out, tuple) else 'NOT reduced over ranks'} and its value is {(out[1] if isinstance(out, tuple) else out)!r}; expected the reduction of 1/2 sum over the owned rows {rows} of x_i (A x)_i (rows restricted, columns complete): the ghost layer is counted once per rank, or owned rows are missing")
+    # ---- the default row set: the dofs of the OWNED nodes under MPI, of all nodes on one process
+    fD = simu.methods["Get_dofs"]
+    for mpi in (1, 2):
+        r.instance(fn=fD.qualname)
+        I = Interp(repo, extra_builtins={"MPI_SIZE": mpi})
+        seen = {}
+        mesh = SimpleNamespace(_Get_mpi_owned_nodes=lambda: "owned-nodes", nodes="all-nodes")
+        obj = XObj(simu, {"mesh": mesh, "problemType": Opaque("pt"), "Get_unknowns": lambda pt=None: ["x", "y"],
+                          "Bc_dofs_nodes": lambda nodes, unknowns, pt=None: seen.setdefault("nodes", nodes) and ("dofs-of", nodes)})
+        try:
+            out = I.call_function(fD, [], self_obj=obj)
+        except XRaise as e:
+            r.fail(fD.qualname, f"dofs:mpi{mpi}", fD.file, fD.lineno, "Get_dofs", f"MPI_SIZE = {mpi}: raises {e}")
+            continue
+        want = "owned-nodes" if mpi > 1 else "all-nodes"
+        if out == ("dofs-of", want):
+            r.ok(f"Get_dofs, MPI_SIZE = {mpi}: dofs of the {want}")
+        else:
+            r.fail(fD.qualname, f"dofs:mpi{mpi}", fD.file, fD.lineno, "Get_dofs", f"MPI_SIZE = {mpi}: the default dofs are built from {seen.get('nodes')!r}, expected the {want.replace('-', ' ')} of the mesh: owned-row sums run over the ghost layer too")
+    # ---- reaction
+    fR = simu.methods["Calc_Reaction"]
+    K, C, M = sym("k"), sym("c"), sym("m")
+    u, v, a = vec("u"), vec("v"), vec("a")
+    algo_ci = None
+    for nm in ("EasyFEA.Simulations._simu.AlgoType", "EasyFEA.Simulations.Solvers.AlgoType", "EasyFEA.Utilities._types.AlgoType"):
+        try:
+            algo_ci = repo.cls(nm)
+            break
+        except Exception:
+            continue
+    if algo_ci is None:
+        algo_ci = next(c for c in repo.all_classes() if c.name == "AlgoType")
+    mem = repo.enum_members(algo_ci.qualname)
+    for algo, parts in (("elliptic", "K u"), ("parabolic", "K u + C v"), ("newmark", "K u + C v + M a"), ("midpoint", "K u + C v + M a")):
+        for mpi in (1, 2):
+            for label, dofs, owned in (("default dofs", None, [1, 2, 3]), ("requested [0, 1, 3], owned [1, 2, 3]", XArray((3,), [0, 1, 3], "i"), [1, 2, 3])):
+                r.instance(fn=fR.qualname)
+                I = Interp(repo, extra_builtins={"MPI_SIZE": mpi})
+                I.call_hook = hook
+                obj = XObj(simu, {
+                    "Get_dofs": lambda pt=None: XArray((len(owned),), list(owned), "i"), "algo": EnumVal(algo_ci, algo, mem[algo]), "problemType": Opaque("pt"), "isNonLinear": False,
+                    "Get_K_C_M_F": lambda pt=None: (K, C, M, Opaque("F")), "_Get_u_n": lambda pt=None, **k: u, "_Get_v_n": lambda pt=None, **k: v, "_Get_a_n": lambda pt=None, **k: a,
+                })
+                tag = f"{algo}, MPI_SIZE = {mpi}, {label}"
+                try:
+                    out = I.call_function(fR, [dofs, Opaque("pt")], self_obj=obj)
+                except XRaise as e:
+                    r.fail(fR.qualname, f"reaction:{tag}", fR.file, fR.lineno, "Calc_Reaction", f"{tag}: raises {e}")
+                    continue
+                rows = owned if dofs is None else [1, 3]
+
+                def row(i):
+                    t = sum((K[i, j] * u[j] for j in range(n)), Poly())
+                    if "C v" in parts:
+                        t = t + sum((C[i, j] * v[j] for j in range(n)), Poly())
+                    if "M a" in parts:
+                        t = t + sum((M[i, j] * a[j] for j in range(n)), Poly())
+                    return t
+
+                if mpi > 1:
+                    okr = isinstance(out, tuple) and out[0] == "reduced"
+                    val = XArray.from_nested(out[1]) if okr else None
+                    want = [row(i) if i in rows else Poly() for i in range(n)]
+                else:
+                    okr = not isinstance(out, tuple)
+                    val = XArray.from_nested(out) if okr else None
+                    want = [row(i) for i in rows]
+                if okr and val.shape == (len(want),) and all(is_zero(Poly.of(g) - w) for g, w in zip(val.data, want)):
+                    r.ok(f"Calc_Reaction, {tag}: {parts} on rows {rows}")
+                else:
+                    r.fail(fR.qualname, f"reaction:{algo}:{mpi}:{'default' if dofs is None else 'requested'}", fR.file, fR.lineno, "Calc_Reaction", f"{tag}: the result is {'' if okr else 'not '}{'reduced over ranks' if mpi > 1 else 'returned per rank'} and is not ({parts}) on the requested owned rows {rows} (zero elsewhere): rows of the ghost layer are added once per rank, or a term of the scheme is missing")
